@@ -28,6 +28,7 @@ ASSUMPTIONS = [
 ]
 REQUIRED = ["documents_with_two_prefixes_on_one_namespace", "documents_larger_than_one_mebibyte", "imports_after_in_place_edit_of_an_earlier_import", "imports_raw", "imports_clean", "imports_collapse", "roundtrips", "docs_with_comments", "docs_with_redeclaration",
             "docs_with_xml_attr", "docs_with_qualified_attr", "docs_with_cdata", "literal_hits", "blank_kept", "trimmed_to_none"]
+THREAD_HAMMER = "full"      # (mode T side shards: the hammering threads also import, load and copy documents of their own)
 EXHAUSTIVE = {"quick": False, "thorough": False}
 
 ASCII_WS = " \t\n"
